@@ -281,10 +281,10 @@ Definition wf_file (f : file_src) : bool :=
 Definition plain_node (n : node) : bool := match n with NChar _ | NBreak => true | _ => false end.
 Definition plain_file (f : file_src) : bool := forallb (fun c => forallb plain_node (c_payload c)) (f_cues f).
 (* b/i/u tags in angle syntax (short, long, upper case) and <font color=..> tags (hex or named colour, any
-   quoting), nested and adjacent at will, around plain text *)
+   quoting), nested and adjacent at will, around plain text and character references *)
 Fixpoint angle_node (n : node) : bool :=
   match n with
-  | NChar _ | NBreak => true
+  | NChar _ | NRef _ | NBreak => true
   | NTag _ sy body =>
       negb (is_brace sy) && (fix go (l : list node) : bool := match l with [] => true | x :: l' => angle_node x && go l' end) body
   | NFont _ _ body =>
@@ -292,6 +292,19 @@ Fixpoint angle_node (n : node) : bool :=
   | _ => false
   end.
 Definition angle_file (f : file_src) : bool := forallb (fun c => forallb angle_node (c_payload c)) (f_cues f).
+(* the same with the long brace forms {bold} {italic} {underline} allowed as well: everything of the grammar
+   except the short brace forms and stray closers (the recorded findings) *)
+Fixpoint markup_node (n : node) : bool :=
+  match n with
+  | NChar _ | NRef _ | NBreak => true
+  | NTag _ sy body =>
+      negb (match sy with BraceShort => true | _ => false end) &&
+      (fix go (l : list node) : bool := match l with [] => true | x :: l' => markup_node x && go l' end) body
+  | NFont _ _ body =>
+      (fix go (l : list node) : bool := match l with [] => true | x :: l' => markup_node x && go l' end) body
+  | NStray _ _ => false
+  end.
+Definition markup_file (f : file_src) : bool := forallb (fun c => forallb markup_node (c_payload c)) (f_cues f).
 
 (* two cues say the same thing: same clock fields (the width of the hour field is free) and same payload *)
 Definition same_clock (a b : clock) : Prop := k_h a = k_h b /\ k_m a = k_m b /\ k_s a = k_s b /\ k_ms a = k_ms b.
